@@ -27,6 +27,26 @@ for _p in ALL_M:
          assumptions=COMMON_ASSUME)
 
 
+meta('C18', 'other', 'symbolic execution of rustc MIR (mirsym) + z3 (String theory): per-path obligations over symbolic inputs',
+     explanation='Config::get_pg_config is executed symbolically from its MIR for a covering family of Option-tag patterns (identity group, host/port/hostaddr groups as '
+                 'full products; every other field alone and in every pair; all set; none set) with every payload (strings as z3 String terms, ports, addresses, durations, '
+                 'flags) symbolic; tokio_postgres::Config is a record model and from_str returns an arbitrary record or an error; each path yields the obligations the property '
+                 'demands (error variant exactly when documented, every set option in effect, list order url ++ singular ++ plural, defaults only without hosts, no panic) and z3 must '
+                 'prove each valid under the path condition; a falsified obligation is concretised and the real function is run on that input.',
+     outside='Option-tag combinations beyond the covering family (triples of unrelated fields); lists longer than 2; the real tokio_postgres parser (modelled as an arbitrary record); non-unix defaults',
+     assumptions=['tokio_postgres::Config setters overwrite (scalars) or append (host, hostaddr, port) as documented', 'z3 String theory for string equality and emptiness'])
+
+
+meta('C19', 'other', 'symbolic execution of rustc MIR (mirsym) + z3 (String theory): per-path obligations over symbolic inputs',
+     explanation='builder() of the redis, cluster and sentinel Config, their Default impls and every From conversion between the connection descriptions and the redis '
+                 "crate's types are executed from MIR with all payloads symbolic (strings as z3 String terms, ports, db numbers, flags) and every enum variant / Option tag enumerated; "
+                 'obligations: both url(s) and connection(s) -> UrlAndConnectionSpecified and no client constructed; neither -> the documented default server; otherwise the client '
+                 'constructor receives exactly the named servers in order; a constructor error becomes ConfigError::Redis; forth-and-back conversion is the identity field by field.',
+     outside='the serde round trip of PoolConfig/Timeouts/QueueMode and the defaults of omitted sections (derive-generated visitor code driving a format crate: not encodable, see DESIGN.md section 10); '
+             'the redis crate itself (Client::open etc. are models that record their arguments); url lists longer than 2',
+     assumptions=['redis::Client::open / ClusterClientBuilder / SentinelClient::build are models that record their arguments and succeed or fail arbitrarily'])
+
+
 def mfam(name, oracles, depth, **kw):
     cfg = {'oracles': tuple(oracles), 'depth': depth}
     cfg.update(kw)
@@ -101,6 +121,7 @@ def jobs_for(pid, tier, seed):
         J.append(mfam('2 tasks + retain/resize/close: detach exactly once', ['C09'], 5 if q else 7, tasks=2, env=E, ctl=('retain', 'resize', 'close'), resize_targets=(0, 1), max_ctl=2, probe=False))
         J.append(mfam('2 tasks, hooks reject, cancel: detach exactly once', ['C09'], 5 if q else 7, tasks=2, hooks=H3, env={'create': OEP, 'recycle': OEP, 'hook': OEP}, probe=False))
         J.append(mfam('2 tasks + repeated retain (stateful predicates)', ['C09', 'C11'], 5 if q else 7, tasks=2, env={'create': ('ok',), 'recycle': ('ok',), 'pred': ('keep', 'remove')}, ctl=('retain',), max_ctl=3, cancel=False, take=False, probe=False, lifo=False))
+        J.append(mfam('2 tasks + resize, take/return of surplus objects, capacity probe', ['C09'], 5 if q else 7, tasks=2, env={'create': ('ok',), 'recycle': ('ok',)}, ctl=('resize',), resize_targets=(1, 2), max_ctl=1, cancel=False, lifo=False))
         J.append(mfam('thread level: take racing get and return (full pool)', ['C09', 'C02', 'C01'], 12 if q else 16, tasks=3, env={'create': ('ok',), 'recycle': ('ok',)},
                       thread_mode=True, prefix=(('get', 'T1', 0), ('get', 'T2', 0)), cancel=False, lifo=False, max_gets=1, max_size_bound=2))
     elif pid == 'C10':
@@ -130,6 +151,12 @@ def jobs_for(pid, tier, seed):
         J.append(ufam('thread level: add / try_add racing close', ['C12'], 12 if q else 16, tasks=2, thread_mode=True, get_variants=['try_get'], add_variants=['try_add', 'add'], max_adds=2, ctl=('close',), cancel=False, take=False, max_gets=0))
         J.append(ufam('thread level: return / take racing close', ['C12'], 12 if q else 16, tasks=2, thread_mode=True, ctor='from_vec', initial=2, prefix=(('uget', 'T1', 0), ('uget', 'T2', 0)),
                       get_variants=['try_get'], add_variants=['try_add'], max_adds=0, ctl=('close',), cancel=False))
+    elif pid == 'C19':
+        J.append({'name': 'redis / cluster / sentinel builder(), Default impls and From conversions', 'kind': 'redisconfig', 'cfg': {}, 'crates': ['deadpool', 'deadpool_redis']})
+    elif pid == 'C18':
+        n = 4 if q else 8
+        for i in range(n):
+            J.append({'name': f'get_pg_config obligations, shard {i + 1}/{n}', 'kind': 'pgconfig', 'cfg': {'shard': (i, n)}, 'crates': ['deadpool_postgres']})
     elif pid == 'C08':
         J.append(mfam('1 task... 3 tasks returning in any order, fifo+lifo, rejects', ['C08'], 6 if q else 8, tasks=3, env={'create': ('ok',), 'recycle': OE}, cancel=False, probe=False))
         J.append(mfam('2 tasks + retain, fifo+lifo', ['C08'], 6 if q else 8, tasks=2, env={'create': ('ok',), 'recycle': OE}, ctl=('retain',), cancel=False, probe=False))
@@ -188,6 +215,12 @@ def run(job):
                        'mode': 'thread' if B.cfg['thread_mode'] else 'task', 'time_budget_s': job['budget']},
             'summary': f'{R.states} states, {R.transitions} transitions, depth {R.max_depth}{"" if R.complete else " (budget reached)"}, {len(vios)} violation(s)',
         }
+    if job['kind'] == 'redisconfig':
+        from . import w_redisconfig
+        return w_redisconfig.run_c19(prog, job)
+    if job['kind'] == 'pgconfig':
+        from . import w_pgconfig
+        return w_pgconfig.run_c18(prog, job)
     if job['kind'] == 'validate_managed':
         return validate_managed(prog, job)
     if job['kind'] == 'validate_unmanaged':
